@@ -3,7 +3,7 @@
 use vmon::ctx::hex_of_blocks;
 use vmon::gen::{self, Fam};
 use vmon::obs::{observe, realize};
-use vmon::tbl::{BinOp, BIN_FORMS, NOT_FORMS};
+use vmon::tbl::{BinOp, ALIAS_FORMS, BIN_FORMS, NOT_FORMS};
 use vmon::*;
 
 const RULE: &str = "event = one call of one syntactic form of NOT/AND/OR/XOR on a pair of tables; \
@@ -67,6 +67,24 @@ fn exec<T: Tbl>(ctx: &mut Ctx, ev: &Ev) {
     };
     let want = Model::from_fn(n, |m| op.apply(ma.bits[m], mb.bits[m]));
     let nontrivial = ma.is_const().is_none() && mb.is_const().is_none();
+    // the same object on both sides (possible for the forms that only borrow): a op a
+    if ev.tabs[0] == ev.tabs[1] {
+        for (k, form) in ALIAS_FORMS.iter().enumerate() {
+            ctx.cell_only(&cell(op.name(), &format!("aliased {}", form), T::ty(), n));
+            match guard(|| T::t_bin_alias(op, k, &a)) {
+                Outcome::Panicked(msg) => ctx.violate("no-panic", ev, form, format!("{} on the same object panicked: {}", form, msg)),
+                Outcome::Returned(r) => {
+                    if let Some(got) = observe(ctx, ev, &format!("result of aliased {}", form), &r, n) {
+                        ctx.check("pointwise", got == want, ev, &format!("aliased {}", form), || {
+                            format!("{} {} with the same object on both sides ({}) gave {} expected {}", op.name(), form,
+                                hex_of_blocks(&ev.tabs[0]), hex_of_blocks(r.t_blocks()), hex_of_blocks(&want.to_blocks()))
+                        });
+                    }
+                    ctx.check("operand-unchanged", a.t_blocks() == &ev.tabs[0][..], ev, &format!("aliased {}", form), || "aliased form modified its operand".into());
+                }
+            }
+        }
+    }
     let mut first: Option<T> = None;
     for (k, form) in BIN_FORMS.iter().enumerate() {
         ctx.event_digest(
@@ -119,6 +137,11 @@ fn run_pair(ctx: &mut Ctx, n: usize, a: &[u64], b: &[u64]) {
         for op in BinOp::ALL {
             let ev = Ev::new(op.name(), ty, n).tab(a).tab(b);
             exec_dispatch(ctx, &ev);
+            if n >= 4 {
+                // the diagonal pair (a, a): also exercises the forms with one object on both sides
+                let ev = Ev::new(op.name(), ty, n).tab(a).tab(a);
+                exec_dispatch(ctx, &ev);
+            }
         }
     }
 }
@@ -209,6 +232,9 @@ fn main() {
             for op in BinOp::ALL {
                 for f in BIN_FORMS {
                     required.push(cell(op.name(), f, ty, n));
+                }
+                for f in ALIAS_FORMS {
+                    required.push(cell(op.name(), &format!("aliased {}", f), ty, n));
                 }
             }
         }
